@@ -6,5 +6,5 @@ CONSTANTS
   Chunk = 3
   Truncate = TRUE
   SyncOnPersist = TRUE
-INVARIANTS TypeOK ExactOnSuccess SyncedOnSuccess DurableAfterSuccess NothingLeftOnFailure
+INVARIANTS TypeOK ExactOnSuccess SyncedOnSuccess DurableAfterSuccess NothingLeftOnFailure RefusedLeavesFileIntact
 CHECK_DEADLOCK FALSE
